@@ -356,7 +356,8 @@ class ForeignFamily(Family):
             "and continuation chunks with three continuation conventions, repeated full headers, zero-length messages, in-band "
             "chunk-size changes 1..2^31-1), fed to the real deserializer and the model under a partition (des.feed) and judged by "
             "!des.decoded against the messages the sender encoded; C16: interleaved variant; C15/C03: additionally mutated copies "
-            "under two partitions (!des.split); non-trivial = ≥ 2 messages; distinct = distinct op text")
+            "under two partitions (!des.split); C03: !des.alloc (a consumer keeping every decoded message holds at most 8 x received + "
+            "one 16 MiB message + 1 MiB), also on streams that re-declare an announced 16 MiB length before the message is complete; non-trivial = ≥ 2 messages; distinct = distinct op text")
 
     def gen(self, rng, tier, pid, stats):
         n = 1500 if tier == "quick" else 15000
@@ -377,6 +378,26 @@ class ForeignFamily(Family):
             return
         for i in range(n):
             big = rng.chance(1, 25)
+            if pid == "C03" and i % 10 == 9:
+                # a message whose announced length is RE-DECLARED by the next header on its chunk stream before it is
+                # complete (announce up to 16 MiB, deliver one chunk, re-declare a little more than what is held): a
+                # consumer that keeps the messages must not end up holding the announced sizes
+                bs = bytearray()
+                for _ in range(rng.range(3, 8)):
+                    csid, typ = rng.range(2, 63), rng.choice([8, 9, 18, 22])
+                    announced = rng.choice([0xFFFFFF, 0xFFFFFF, rng.range(1 << 20, 0xFFFFFF)])
+                    bs += bytes([csid]) + bytes(3) + announced.to_bytes(3, "big") + bytes([typ]) + (1).to_bytes(4, "little") + rng.bytes(128)
+                    total = 128 + rng.range(1, 128)
+                    if rng.chance(1, 2):
+                        bs += bytes([0x40 | csid]) + rng.range(0, 50).to_bytes(3, "big") + total.to_bytes(3, "big") + bytes([typ])
+                    else:
+                        bs += bytes([csid]) + rng.range(0, 5000).to_bytes(3, "big") + total.to_bytes(3, "big") + bytes([typ]) + (1).to_bytes(4, "little")
+                    bs += rng.bytes(total - 128)
+                bs = bytes(bs)
+                bump(stats, "redeclared_length_streams")
+                yield ["des.new", f"des.feed {part_sizes(rng, len(bs))} {hexb(bs)}", f"!des.alloc {hexb(bs)}",
+                       f"!des.split all {part_sizes(rng, len(bs))} {hexb(bs)}"]
+                continue
             if i % 8 == 7:
                 bs, expect = GF.encode_alternating_cadence(rng, stats)
                 bump(stats, "alternating_cadence")
@@ -388,6 +409,8 @@ class ForeignFamily(Family):
                 ops.append("!des.decoded " + (" ".join(GF.show_msg(m) for m in expect) or "~"))
                 ops.append(f"spec.feed {hexb(bs)}")
                 ops.append(f"spec.seq {hexb(bs)}")
+            if pid == "C03":
+                ops.append(f"!des.alloc {hexb(bs)}")
             if pid in ("C15", "C03"):
                 ops.append(f"!des.split all {part_sizes(rng, len(bs))} {hexb(bs)}")
                 if len(bs) < 3000:
